@@ -233,7 +233,12 @@ pub async fn run_case(case: Vec<String>) -> String {
     let clock = Clock::new();
     let start = clock.0;
     let wire: WireLog = Default::default();
-    let mock = MockTp::udp(wire.clone(), start);
+    let mut mock = MockTp::udp(wire.clone(), start);
+    if setup.split(';').any(|kv| kv == "tcp") {
+        // a connection-style (reliable) transport: nothing is retransmitted, the wait timers of RFC 6026 apply all the same
+        mock.reliable = true;
+        mock.name = "TCP";
+    }
     if let Some(ms) = setup.split(';').find_map(|kv| kv.strip_prefix("linger2xx=")).and_then(|v| v.parse::<u64>().ok()) {
         // the send of a 2xx to an INVITE returns only this long after the bytes are out (the peer's ACK can come meanwhile)
         mock.linger_2xx_ms.store(ms, std::sync::atomic::Ordering::SeqCst);
